@@ -16,6 +16,10 @@ MODES_DIR = [0o755, 0o700, 0o750, 0o777, 0o711]
 MODES_FILE = [0o644, 0o600, 0o755, 0o444, 0o640, 0o700]
 
 
+_CTX = {"buf": 0, "p": 0.0}  # set by gen_case: transferBufferSize of the case's connector, share of sized contents
+BUFFERS = [65536, 4096, 512]
+
+
 def _join(parent: str, comp: str) -> str:
     return f"{parent}/{comp}" if parent else comp
 
@@ -89,7 +93,7 @@ def gen_tree(rng, k0: str, big: int):
             setup.append(["dir", tpl, rng.choice(MODES_DIR)])
             model[tpl] = "dir"
         elif kind == "file":
-            setup.append(["file", tpl, N.content(rng, big), rng.choice(MODES_FILE)])
+            setup.append(["file", tpl, N.content(rng, big, _CTX["buf"], _CTX["p"]), rng.choice(MODES_FILE)])
             model[tpl] = "file"
         return True
 
@@ -168,7 +172,7 @@ def gen_op(rng, model, op: str, big: int, force_focus: bool = False):
             o["path"] = _pick_target(rng, model, {"dir"}, focus) or _new_path(rng, model, focus)
         else:
             o["path"] = _join("nx", "<0>")
-        o["data"] = N.content(rng, big)
+        o["data"] = N.content(rng, big, _CTX["buf"], _CTX["p"])
     elif op == "glob":
         o["path"] = rng.choice([_pick_target(rng, model, {"dir", "ld"}, focus) or "", ""])
         o["pattern"] = rng.choice(["*", "*", "*/*", "?*", "*.txt", "d/*", "*/s", "nomatch*", "__PFX__*"])
@@ -209,7 +213,13 @@ def update_model(model, o):
         model[p] = "file"
 
 
-def gen_case(rng, primary_cls: str, focus_op: str, nops: int, big: int = 0) -> dict:
+def gen_case(rng, primary_cls: str, focus_op: str, nops: int, big: int = 0, buf: int | None = None) -> dict:
+    if buf is None:
+        buf = rng.choices(BUFFERS, [5, 3, 3])[0]
+    # sized multi-byte contents are cheap with the small buffers, rarer with the default 64 KiB one
+    _CTX.update(buf=buf, p=(0.35 if buf < 65536 else (0.04 if not big else 0.10)))
+    if focus_op in ("write_text", "read_text", "size", "checksum") and buf < 65536:
+        _CTX["p"] = 0.7
     names, cls = gen_names(rng, primary_cls)
     need = {"read_text": ["file", "lf"], "walk": ["dir"], "glob": ["dir"], "checksum": ["file", "lf", "dir"],
             "chmod": ["file", "dir", "lf"], "size": ["file", "dir", "lf"]}.get(focus_op)
@@ -232,4 +242,67 @@ def gen_case(rng, primary_cls: str, focus_op: str, nops: int, big: int = 0) -> d
             o["pattern"] = (lead or "a") + "*"
         ops.append(o)
         update_model(model, o)
-    return {"names": names, "classes": cls, "setup": setup, "ops": ops, "k0": k0}
+    _CTX.update(buf=0, p=0.0)
+    return {"names": names, "classes": cls, "setup": setup, "ops": ops, "k0": k0, "buf": buf}
+
+
+# ------------------------------------------------------------------------------- stateful sequences
+QUERY_OPS = ["resolve", "exists", "is_file", "is_dir", "is_symlink", "size", "checksum", "glob", "walk", "read_text"]
+
+
+def gen_stateful(rng, buf: int | None = None) -> dict:
+    """Plain names, ONE pair of trees, 6..15 operations: the same read-type queries on the same *watched* paths are
+    repeated before and after every mutation, and every mutation goes through a path other than the watched ones
+    (an ancestor is removed, a symlink's target is removed / rewritten / chmod-ed, a directory symlink the watched
+    path goes through is re-targeted, a removed directory is re-created)."""
+    if buf is None:
+        buf = rng.choices(BUFFERS, [5, 3, 3])[0]
+    benign = [n for c in ("plain", "dotdash", "uni") for n in N.BENIGN_CLASSES[c]]
+    names = rng.sample([n for n in benign if n not in LITERALS], 4)   # A, B, f1, C
+    A, B, F, C = "<0>", "<1>", "<2>", "<3>"
+    c1, c2, c3 = (rng.choice(["one", "hello\nworld", "abc", "x"]), rng.choice(["second content", "zz"]), rng.choice(["third", "q"]))
+    absolute = rng.random() < 0.5
+    setup = [["dir", A, 0o755], ["dir", f"{A}/{B}", 0o755], ["file", f"{A}/{B}/{F}", c1, 0o644], ["file", f"{A}/{B}/f2", "f2", 0o644],
+             ["dir", C, 0o755], ["dir", f"{C}/{B}", 0o755], ["file", f"{C}/{B}/{F}", c2, 0o600], ["file", f"{C}/g", "g", 0o644],
+             ["symlink", "lnkdir", A, absolute], ["symlink", "lnkfile", f"{A}/{B}/{F}", rng.random() < 0.5],
+             ["symlink", "lnk2", "lnkdir", False], ["file", "top", "top", 0o644]]
+    watched = [f"lnkdir/{B}/{F}", "lnkfile", f"{A}/{B}/{F}", f"{A}/{B}", f"lnk2/{B}", "lnkdir", f"lnk2/{B}/{F}", f"{C}/g", ""]
+    dirs_w = {f"{A}/{B}", f"lnk2/{B}", "lnkdir", ""}
+
+    def query(path):
+        ops = ["resolve", "resolve", "exists", "is_file", "is_dir", "is_symlink", "size", "checksum"]
+        ops += ["glob", "walk"] if path in dirs_w else ["read_text", "read_text"]
+        op = rng.choice(ops)
+        o = {"op": op, "path": path}
+        if op == "glob":
+            o["pattern"] = rng.choice(["*", "*/*"])
+        elif op == "walk":
+            o["top_down"], o["follow_symlinks"] = True, rng.random() < 0.5
+        elif op == "read_text":
+            o["n"] = None
+        return o
+
+    through_links = [f"lnkdir/{B}/{F}", "lnkfile", f"lnk2/{B}", f"lnk2/{B}/{F}", "lnkdir", f"{A}/{B}/{F}"]
+    probes = [{"op": "resolve", "path": rng.choice(through_links)}, query(rng.choice(through_links))]
+    probes += [query(p) for p in rng.sample(watched, rng.randint(0, 2))]
+    mutations = {
+        "rm-target-of-filelink": [{"op": "rmtree", "path": f"{A}/{B}/{F}"}],
+        "rewrite-target": [{"op": "write_text", "path": f"{A}/{B}/{F}", "data": N.content(rng, 0, buf, 0.5) if rng.random() < 0.5 else c3}],
+        "chmod-target": [{"op": "chmod", "path": f"{A}/{B}/{F}", "mode": rng.choice([0o600, 0o640, 0o755])}],
+        "retarget-dirlink": [{"op": "rmtree", "path": "lnkdir"}, {"op": "symlink_to", "path": "lnkdir", "target": C}],
+        "rm-ancestor": [{"op": "rmtree", "path": f"{A}/{B}"}],
+        "recreate": [{"op": "mkdir", "path": f"{A}/{B}", "mode": 0o755, "parents": False, "exist_ok": False},
+                     {"op": "write_text", "path": f"{A}/{B}/{F}", "data": c3}],
+        "rm-top-ancestor": [{"op": "rmtree", "path": A}],
+    }
+    plans = [["rewrite-target", "rm-target-of-filelink"], ["retarget-dirlink"], ["rm-ancestor", "recreate"], ["chmod-target", "rm-ancestor"],
+             ["retarget-dirlink", "rm-top-ancestor"], ["rm-target-of-filelink", "retarget-dirlink"], ["rm-ancestor", "recreate", "retarget-dirlink"],
+             ["rewrite-target", "retarget-dirlink"], ["rm-top-ancestor"]]
+    plan = rng.choice(plans)
+    ops = list(probes)
+    for m in plan:
+        if len(ops) + len(mutations[m]) + len(probes) > 15:
+            break
+        ops += [dict(o) for o in mutations[m]] + [dict(q) for q in probes]
+    return {"names": names, "classes": ["stateful"] * 4, "setup": setup, "ops": ops, "k0": "stateful", "buf": buf,
+            "stateful": True, "plan": plan}
